@@ -120,7 +120,7 @@ func (propC05) Gen(r *Rng, idx int, tier string) *Scenario {
 	sc.Decl = c05Decl(r)
 	sc.World = WorldSpec{Cols: 80, Now: 1700000000, Env: map[string]BStr{}}
 	p := sc.C05
-	p.Shape = r.Fork("shape").Pick([]string{"ini-parse", "defini-parse", "parse-defini", "parse", "defini-parse", "parse-defini"})
+	p.Shape = r.Fork("shape").Pick([]string{"ini-parse", "defini-parse", "parse-defini", "parse", "defini-parse", "parse-defini", "parse-parse"})
 	p.Plan = genPlan(r.Fork("plan"), sc.Decl)
 	ois := optInfos(sc.Decl)
 	sr := r.Fork("sources")
@@ -158,7 +158,7 @@ func (propC05) Gen(r *Rng, idx int, tier string) *Scenario {
 			}
 		}
 		// INI entries
-		if p.Shape != "parse" && !o.NoIni && sr.Chance(1, 3) {
+		if p.Shape != "parse" && p.Shape != "parse-parse" && !o.NoIni && sr.Chance(1, 3) {
 			n := 1
 			if isSliceKind(o.Kind) || isMapKind(o.Kind) {
 				n = sr.Range(1, 3)
@@ -301,6 +301,14 @@ func (propC05) Judge(sc *Scenario) *Verdict {
 		s2.Ops = append(s2.Ops, parseOp)
 		s2.Ops = append(s2.Ops, p.EnvMid...) // must not matter: ParseArgs has run
 		s2.Ops = append(s2.Ops, iniOp)
+	case "parse-parse":
+		// a reused parser: a first ParseArgs with an empty command line (so every
+		// option is defaulted, none explicitly set), the environment changes, then
+		// the judged ParseArgs
+		s2.Ops = append(s2.Ops, Op{Kind: "parse"})
+		s2.Ops = append(s2.Ops, p.EnvMid...)
+		parseIdx = len(s2.Ops)
+		s2.Ops = append(s2.Ops, parseOp)
 	default:
 		s2.Ops = append(s2.Ops, p.EnvMid...)
 		parseIdx = len(s2.Ops)
@@ -342,6 +350,45 @@ func (propC05) Judge(sc *Scenario) *Verdict {
 			stored[st.Path] = *st.Val
 		}
 	}
+	firstParseBad := ""
+	if p.Shape == "parse-parse" {
+		// what the first ParseArgs (empty command line, environment Env0) leaves in the fields
+		env1 := map[string]string{}
+		for k, val := range p.Env0 {
+			env1[k] = string(val)
+		}
+		for _, oi := range optInfos(d) {
+			if isFuncKind(oi.O.Kind) {
+				continue
+			}
+			src := c05Model(oi, d, nil, nil, env1)
+			if src.name == "stored" {
+				if isSliceKind(oi.O.Kind) || isMapKind(oi.O.Kind) {
+					if _, ok := stored[oi.Path]; !ok {
+						stored[oi.Path] = V{}
+					}
+				}
+				continue
+			}
+			val, err := modelApply(oi.O.Kind, src.texts)
+			if err == nil && len(oi.O.Choices) > 0 {
+				for _, t := range src.texts {
+					ok := false
+					for _, c := range oi.O.Choices {
+						ok = ok || c == t
+					}
+					if !ok {
+						err = fmt.Errorf("not an allowed choice")
+					}
+				}
+			}
+			if err != nil {
+				firstParseBad = oi.Path
+				continue
+			}
+			stored[oi.Path] = val
+		}
+	}
 	shapeSig := map[string]bool{}
 	finish := func() *Verdict {
 		// signature: history shape + the cell with most sources present
@@ -357,6 +404,18 @@ func (propC05) Judge(sc *Scenario) *Verdict {
 	if o.DeclErr != "" {
 		v.NotJudged = "declaration rejected"
 		return finish()
+	}
+	if firstParseBad != "" {
+		v.NotJudged = "first parse of a reused parser has an unconvertible source"
+		return finish()
+	}
+	if p.Shape == "parse-parse" {
+		for i := 0; i < parseIdx; i++ {
+			if o.Ops[i].Op == "parse" && o.Ops[i].Err != "" {
+				v.NotJudged = "first parse of a reused parser rejected"
+				return finish()
+			}
+		}
 	}
 	for i := range o.Ops {
 		if ab := abnormal(&o.Ops[i]); ab != "" {
@@ -497,6 +556,9 @@ func (propC05) Judge(sc *Scenario) *Verdict {
 			has := map[string]bool{}
 			for _, s := range present {
 				has[s] = true
+			}
+			if p.Shape == "parse-parse" {
+				continue // the first parse already ran the callbacks for its sources
 			}
 			if has["cli"] && has["ini"] {
 				continue // the INI read already ran the callback before the command line was seen
